@@ -279,13 +279,15 @@ Inductive xbody := XSealed (pre ctr : N) (pid : N) (len : N) | XGarbage.
 
 Inductive xevent :=
 | XEnc (s : side) (pid : N) (len : N)
-| XDeliver (to : side) (hlen : N) (pre ctr : N) (b : xbody) (flen : N).
+| XDeliver (to : side) (hlen : N) (pre ctr : N) (b : xbody) (flen : N)
+| XSkip (s : side) (ctr : N).   (* the sender's counter moves forward to ctr: frames sent and lost in between *)
    (* hlen = min(12, frame length): with fewer than 12 header bytes the frame is too short anyway *)
 
 Inductive xoutcome :=
 | OEnc (pre ctr : N)
 | OAccept (pid : N)
 | OShort | ODir | OOld | OExhausted | OAuth
+| OSkip
 | OReject   (* rejected, error text not recognised by the harness: matches any rejection *)
 | OOther.
 
@@ -304,9 +306,10 @@ Definition tevent_of (e : xevent) : tevent :=
       EDeliver _ _ to {| f_len := flen;
                          f_nonce := if N.eqb hlen 12 then nonce_of pre ctr else repeat x00 (N.to_nat hlen);
                          f_body := tbody_of b |}
+  | XSkip s _ => EEnc _ _ s (0, 0)   (* not used: [xrun] handles XSkip itself *)
   end.
 
-Definition actor (e : xevent) : side := match e with XEnc s _ _ => s | XDeliver to _ _ _ _ _ => to end.
+Definition actor (e : xevent) : side := match e with XEnc s _ _ => s | XDeliver to _ _ _ _ _ => to | XSkip s _ => s end.
 
 (** Only what the property speaks about is compared: accepted or rejected,
     which plaintext, and (in [xrun]) both counters.  The rejection reason is
@@ -325,6 +328,10 @@ Fixpoint xrun (dec : side -> sess -> tframe -> sess * result tptext)
               (y : sys tptext tbody) (evs : list xevent) (obs : list (xoutcome * N * N)) : bool :=
   match evs, obs with
   | [], [] => true
+  | XSkip s ctr :: evs', (o, sn, rc) :: obs' =>
+      let st := st_of _ _ y s in
+      let y' := set_st _ _ y s {| s_send := ctr; s_recv := s_recv st |} in
+      (match o with OSkip => true | _ => false end) && N.eqb ctr sn && N.eqb (s_recv st) rc && xrun dec y' evs' obs'
   | e :: evs', (o, sn, rc) :: obs' =>
       let '(y', out) := tstep dec y (tevent_of e) in
       let st := st_of _ _ y' (actor e) in
